@@ -126,7 +126,7 @@ var CatalogFiles = Files{
 	"layouts/cat_outer.vuego":   "<html><head><title>{{ site }}</title></head><body><main v-html=\"content\"></main></body></html>",
 	"p_filters.vuego":           `<p>{{ title | upper }} {{ user.name | lower | title }} {{ missing | default("dflt") }} {{ items | len }} {{ canary | upper | lower }}</p><pre>{{ m | json }}</pre>`,
 	"p_fm.vuego":                "---\ntitle: FromFM\nextra: [1, 2]\nlayout: \"\"\n---\n<h1>{{ title }}</h1><p>{{ extra[1] }} {{ canary }}</p>",
-	"p_fmcount.vuego":          "---\nvisits: 0\nseen: []\n---\n<template :visits=\"visits + 1\"></template><template :label=\"canary\"></template><p>{{ visits }} {{ label }} {{ canary }}</p><i v-for=\"visits in items\">{{ visits }}</i><b>{{ visits }}</b>",
+	"p_fmcount.vuego":           "---\nvisits: 0\nseen: []\n---\n<template :visits=\"visits + 1\"></template><template :label=\"canary\"></template><p>{{ visits }} {{ label }} {{ canary }}</p><i v-for=\"visits in items\">{{ visits }}</i><b>{{ visits }}</b>",
 	"p_once.vuego":              `<div v-for="it in items"><b v-once>once{{ canary }}</b><i>{{ it }}</i></div><u v-once>other</u>`,
 	"p_html.vuego":              `<div v-html="html"></div><p v-text="title"></p><span v-text="canary"></span>`,
 	"p_tmpl.vuego":              `<template :cnt="0"></template><div v-for="it in items"><template :cnt="cnt + 1"></template><i>{{ cnt }}</i></div><p>{{ canary }}</p>`,
